@@ -79,7 +79,7 @@ def unbordered(b):
 def roundtrip(spelling, kind):
     fp = io.BytesIO()
     w = DiffXWriter(fp)
-    w.write_preamble('top\nline two', encoding=spelling,
+    w.write_preamble('top\n  line two', encoding=spelling,
                      line_endings=kind)
     w.new_change()
     w.write_meta({'k': 'v'}, encoding=spelling)
@@ -139,9 +139,9 @@ def table(tier):
                 # T4: write -> read per spelling
                 try:
                     data, text, meta = roundtrip(sp, kind)
-                    okrt = (text == 'top' + '\n' + 'line two' + NL[kind]
+                    okrt = (text == 'top' + '\n' + '  line two' + NL[kind]
                             and meta == {'k': 'v'})
-                    if kind == 'unix' and text != 'top\nline two\n':
+                    if kind == 'unix' and text != 'top\n  line two\n':
                         okrt = False
                 except Exception as e:  # noqa
                     okrt = False
